@@ -160,6 +160,26 @@ class Effects(object):
         self.max_depth = 10
 
     # -- which classes hold persistent state --------------------------------------------------
+    def class_attr_stores(self):
+        """{(class name, attr)} assigned through the class name anywhere in the package (``Cls.attr = ...``)."""
+        if getattr(self, '_cas', None) is None:
+            out = set()
+            for m in self.model.modules.values():
+                for n in ast.walk(m.tree):
+                    tg = []
+                    if isinstance(n, ast.Assign):
+                        tg = n.targets
+                    elif isinstance(n, (ast.AugAssign, ast.AnnAssign)):
+                        tg = [n.target]
+                    for t in tg:
+                        for x in ast.walk(t):
+                            if isinstance(x, ast.Attribute) and isinstance(x.value, ast.Name) and isinstance(x.ctx, ast.Store):
+                                r = self.model.resolve(m, x.value.id)
+                                if r is not None and r[0] == 'class':
+                                    out.add((r[2].name, x.attr))
+            self._cas = out
+        return self._cas
+
     def _persistent_classes(self):
         model, cg = self.model, self.cg
         out = set()
@@ -605,6 +625,11 @@ class _Interp(object):
             self.expr(t.slice, env)
             self.event(stmt, 'store', base, src(t))
         elif isinstance(t, ast.Attribute):
+            cls = self._package_class(t.value, env)
+            if cls is not None:
+                # Cls.attr = ...  rebinding a class attribute: state shared by every instance
+                self.event(stmt, 'store', STATE('class attribute %s.%s' % (cls[1].name, t.attr)), src(t), value=v)
+                return
             base = self.expr(t.value, env)
             if isinstance(base, _SelfOwn):
                 self.event(stmt, 'store', STATE('%s.%s' % (base.owner[1].name, t.attr)), src(t), value=v,
@@ -681,9 +706,25 @@ class _Interp(object):
             if r[0] == 'const':
                 return self.const_own(r[1], r[2], r[3])
             return IMMUT
+        cls = self._package_class(e.value, env)
+        if cls is not None and not self.eff.model.lookup_method(cls[0], cls[1], e.attr):
+            # Cls.attr read through the class: shared state unless it is an immutable constant that nobody rebinds
+            ca = self.eff.model.class_attr(cls[0], cls[1], e.attr)
+            rebound = (cls[1].name, e.attr) in self.eff.class_attr_stores()
+            if ca is not None and not rebound and isinstance(ca[2], (ast.Constant, ast.Tuple)) and \
+                    all(isinstance(x, (ast.Constant, ast.Tuple, ast.Load)) for x in ast.walk(ca[2])):
+                return IMMUT
+            if ca is not None or rebound:
+                return STATE('class attribute %s.%s' % (cls[1].name, e.attr))
         base = self.expr(e.value, env)
         if isinstance(base, _SelfOwn):
             m, c = base.owner
+            # a property: reading it runs the getter
+            lp = self.eff.model.lookup_property(m, c, e.attr)
+            if lp:
+                pk = (lp[0].name, lp[0].qualname_of(lp[2]))
+                if pk in self.eff.cg.funcs and pk not in self.chain:
+                    return self._call_package(set([pk]), [base], e, [], {})
             # a method?  (bound method objects are immutable)
             if self.eff.model.lookup_method(m, c, e.attr):
                 return IMMUT
@@ -695,6 +736,14 @@ class _Interp(object):
             # scalar fields
             return IMMUT if not base.has('host') else IMMUT
         return base.element() if base.has('fresh') and base.elem is not None else base
+
+    def _package_class(self, node, env):
+        """(Module, ClassDef) when ``node`` is a bare name that denotes a class of the package (not a local)."""
+        if isinstance(node, ast.Name) and node.id not in env and (self.closure_env is None or node.id not in self.closure_env):
+            r = self.eff.model.resolve(self.m, node.id)
+            if r is not None and r[0] == 'class':
+                return r[1], r[2]
+        return None
 
     def _rooted_in_module(self, e, env):
         while isinstance(e, ast.Attribute):
